@@ -216,6 +216,97 @@ Proof.
   - intros H. rewrite H. destruct (Nat.eqb (length vals) (length rw)); reflexivity.
   - intros H H2. apply Nat.eqb_eq in H. rewrite H, H2. simpl. eauto.
 Qed.
+(** *** re-entrant integrands and nested integrations *)
+Lemma rbind_ext {A B} (x : res A) (f g : A -> res B) : (forall a, f a = g a) -> rbind x f = rbind x g.
+Proof. intros H. destruct x; simpl; auto. Qed.
+
+Lemma mapM_ext {A B} (f g : A -> res B) l : (forall a, In a l -> f a = g a) -> mapM f l = mapM g l.
+Proof.
+  induction l as [|a l IH]; intros H; simpl; auto.
+  rewrite (H a (or_introl eq_refl)). apply rbind_ext. intros b.
+  rewrite IH; auto. intros c Hc. apply H. now right.
+Qed.
+
+Lemma mapM_pure {A B} (f : A -> B) l : mapM (fun a => Ok (f a)) l = Ok (map f l).
+Proof. induction l as [|a l IH]; simpl; auto. now rewrite IH. Qed.
+
+Lemma two_col_In rw r : two_col rw = true -> In r rw -> length r = 2%nat.
+Proof.
+  unfold two_col. intros H Hr. rewrite forallb_forall in H. apply Nat.eqb_eq. now apply H.
+Qed.
+
+(** on a two-column table the (func, rule) overload hands the value overload func(rw[i][0]), i = 0, 1, ... *)
+Lemma funM_two_col (f : T -> res T) rw : two_col rw = true ->
+  gl_integrate_funM Ops f rw = rbind (mapM (fun r => f (nth0 Ops r 0)) rw) (fun vals => gl_integrate_values Ops vals rw).
+Proof.
+  intros H. unfold gl_integrate_funM. f_equal. apply mapM_ext. intros r Hr.
+  pose proof (two_col_In rw r H Hr) as L. destruct r; [discriminate|reflexivity].
+Qed.
+
+(** an integrand that always returns is the plain (func, rule) overload *)
+Theorem funM_pure (f : T -> T) rw : gl_integrate_funM Ops (fun x => Ok (f x)) rw = gl_integrate_fun Ops f rw.
+Proof.
+  unfold gl_integrate_funM, gl_integrate_fun.
+  assert (E : mapM (fun r : list T => match r with [] => OOB | x :: _ => Ok (f x) end) rw =
+              if forallb (fun r => negb (Nat.eqb (length r) 0)) rw then Ok (map (fun r => f (nth0 Ops r 0)) rw) else OOB).
+  { induction rw as [|r rw IH]; simpl; auto. destruct r as [|x r]; simpl; auto. rewrite IH.
+    destruct (forallb _ rw); reflexivity. }
+  rewrite E. destruct (forallb _ rw); reflexivity.
+Qed.
+
+Lemma gl_rule_two_col n a b rw : gl_rule Ops n a b = Ok rw -> two_col rw = true /\ length rw = n.
+Proof.
+  intros H. destruct (gl_rule_factor n a b rw H) as (zs & _ & _ & ->). split; [apply two_col_rows_of|].
+  unfold rows_of. rewrite map_length. apply length_gl_assemble.
+Qed.
+
+(** every way of asking for one level's integral is: compute the rule of the level's order, evaluate the
+    integrand at the nodes in order, form the weighted sum *)
+Lemma levelM_canon k n a b (f : T -> res T) :
+  gl_levelM Ops k n a b f =
+  rbind (gl_rule Ops (gl_order k n) a b) (fun rw =>
+    rbind (mapM (fun r => f (nth0 Ops r 0)) rw) (fun vals => gl_integrate_values Ops vals rw)).
+Proof.
+  destruct k; cbn [gl_levelM gl_order]; try reflexivity;
+  (destruct (gl_rule Ops _ a b) as [rw| | |] eqn:E; cbn [rbind]; auto;
+   apply funM_two_col; eapply gl_rule_two_col; eauto).
+Qed.
+
+Lemma levelM_ext k n a b (f g : T -> res T) : (forall x, f x = g x) -> gl_levelM Ops k n a b f = gl_levelM Ops k n a b g.
+Proof.
+  intros H. rewrite !levelM_canon. apply rbind_ext. intros rw. f_equal. apply mapM_ext. intros r _. apply H.
+Qed.
+
+(** two descriptions of the same nested integration: level by level the same order and the same limits,
+    whatever overloads are used *)
+Definition lev_same (l l' : @gl_lev T) : Prop :=
+  gl_order (fst (fst l)) (snd (fst l)) = gl_order (fst (fst l')) (snd (fst l')) /\ snd l = snd l'.
+
+Theorem nest_overloads_agree (core : list T -> res T) levs levs' : Forall2 lev_same levs levs' ->
+  forall xs, gl_nest Ops levs core xs = gl_nest Ops levs' core xs.
+Proof.
+  induction 1 as [|l l' levs levs' [Ho Hl] _ IH]; intros xs; cbn [gl_nest]; auto.
+  rewrite !levelM_canon. rewrite Ho, Hl. apply rbind_ext. intros rw. f_equal. apply mapM_ext. intros r _. apply IH.
+Qed.
+
+(** depth one with an integrand that always returns is the plain interval overload *)
+Theorem nest_depth_one (f : T -> T) n a b :
+  gl_nest Ops [((KInt, n), (a, b))] (fun xs => Ok (f (nth0 Ops xs 0))) [] = gl_integrate Ops f a b n.
+Proof.
+  cbn [gl_nest gl_levelM fst snd app]. unfold gl_integrate. apply rbind_ext. intros rw.
+  rewrite <- funM_pure. reflexivity.
+Qed.
+
+(** a guard reached by the innermost integrand ends the whole nest, however deep and through whichever
+    overloads (every level has at least one node) *)
+Theorem nest_exit_propagates (core : list T -> res T) levs : (forall xs, core xs = Exit) ->
+  List.Forall (fun l : @gl_lev T => exists rw, gl_rule Ops (gl_order (fst (fst l)) (snd (fst l))) (fst (snd l)) (snd (snd l)) = Ok rw /\ rw <> []) levs ->
+  forall xs, gl_nest Ops levs core xs = Exit.
+Proof.
+  intros Hc. induction 1 as [|l levs (rw & Hr & Hne) _ IH]; intros xs; cbn [gl_nest]; auto.
+  rewrite levelM_canon, Hr. cbn [rbind]. destruct rw as [|r rw]; [congruence|].
+  cbn [mapM]. rewrite IH. reflexivity.
+Qed.
 End Generic.
 
 (** ** Part 2: the real-number instance *)
